@@ -57,6 +57,27 @@ CHECKS = {
                      "float is sample k of the source in trace order and the stream length is n_traces x n_samples, for every enumerated layout; the "
                      "digest lands in bytes 960-979. SHA-1 itself is uninterpreted. Bounded model checking.",
                 design='DESIGN.md 7/C20'),
+    'C04': dict(text="The real header classification (all four detection modes), per-trace header capture, footer writing, table patching and the "
+                     "real reader's header regeneration run end to end on a symbolic SEG-Y source whose varying header fields are uninterpreted "
+                     "functions of the trace (wrapped to the field width) and on NumPy header arrays of int16/32/64; z3 shows for a symbolic trace that "
+                     "each of the 89 fields reads back as in the source (heuristic mode under the property's precondition, strip -> 0) and that bytes "
+                     "4096-7695 are the SEG-Y file header. Bounded model checking.",
+                design='DESIGN.md 7/C04'),
+    'C05': dict(text="make_header / _parse_coordinates / gen_coord_list run on symbolic axis origins (any int32), enumerated non-zero steps incl. "
+                     "negative and unequal ones, symbolic whole-millisecond start time and interval; z3 shows count and k-th value of each axis, trace "
+                     "count and structured flag equal the source's. Non-integral millisecond intervals need binary64 reasoning and are outside "
+                     "(see level_note). Bounded model checking.",
+                design='DESIGN.md 7/C05',
+                note=NOTE_COMMON + " Outside this check: sample intervals that are not a whole number of milliseconds (float rounding of 1000.0*(s1-s0)); the evidence lists them as not encoded."),
+    'C09': dict(text="2D route end to end on a symbolic 2D SEG-Y source: producer with edge replication, per-group / per-block compression, 2D header, "
+                     "then the real 2D loaders: the sample read back at a symbolic (trace, sample) is the 2D ZFP cell of the edge-clamped source "
+                     "samples; trace count, header of a symbolic trace and file header equal the source; volume-style refusals are C14's items. "
+                     "Bounded model checking.",
+                design='DESIGN.md 7/C09'),
+    'C11': dict(text="Windowed SEG-Y conversion with a symbolic (min_il, max_il, min_xl, max_xl) window (families: starting at 0 / interior, per "
+                     "axis and both), either SEG-Y reader: shape, trace count, axes, header-array length, file length, every voxel (C01 oracle relative "
+                     "to the window) and every header field of a symbolic trace equal those of converting the windowed cube alone. Bounded model checking.",
+                design='DESIGN.md 7/C11'),
 }
 
 NOT_YET = "check not built yet in this session (work in progress; see DESIGN.md section 11 build order)"
